@@ -272,7 +272,7 @@ theorem sendO_al {o : KcpO} (h : Aligned o) (b : Bytes) : Aligned (sendO o b).o 
   simp only []
   split; · exact h
   split; · exact h
-  split; · exact ⟨h1, h.sb, h.rb, h.rq⟩
+  split; · exact h
   split; · exact ⟨h1, h.sb, h.rb, h.rq⟩
   split; · exact ⟨h1, h.sb, h.rb, h.rq⟩
   refine ⟨?_, h.sb, h.rb, h.rq⟩
